@@ -28,3 +28,15 @@ LEVEL["C01"] = ("Typestate/CFG rules over every composite matcher class and ever
 NOTE["C01"] = ("Not decided: arithmetic inside the alignment helpers, phrase/slop semantics, wildcard/regex/fuzzy "
                "expansion, range term enumeration (value-level). Alignment specs per matcher base class are a frozen "
                "table (wv/matchers.py). NestedChildMatcher is not covered by R1 (conditional realignment on own cursors).")
+LEVEL["C11"] = ("Per-method obligations over the whole Matcher hierarchy (37 classes): interface completeness, "
+                "reconstruction completeness of copy()/replace() against every concrete constructor, advance=>realign "
+                "typestate, guarded child reads, skip_to() early-return guard, reset() must-write set >= the write set "
+                "of the cursor moves. Per-method rules hold for every call sequence, which sampled sequences cannot show.")
+NOTE["C11"] = ("Not decided: equivalence with the list model itself (values of ids/scores). Classes never referenced "
+               "anywhere (SingleTermMatcher, PreloadedUnionMatcher) are outside the quantifier. Missing copy()/reset() "
+               "implementations are listed as known findings.")
+LEVEL["C09"] = ("Guard-fact dataflow over every union/leader-follower matcher: a child's score/weight/value/spans is read "
+                "only where dominating tests put that child on the current document; documented score shapes per "
+                "query kind; boosts and global statistics reach the scorer (value-flow rules).")
+NOTE["C09"] = ("Not decided: the numeric formulas of the weighting models. Non-negativity of term scores is assumed by the "
+               "shape ordering.")
